@@ -411,8 +411,21 @@ def autotool(selector, undo=False):
     if undo:
         rval = rval.wrap_functions(_untooler)
     else:
-        rval = rval.wrap_functions(_tooler)
-        verify(rval)
+        done = []
+
+        def _tool(fn, captures):
+            fn = _tooler(fn, captures)
+            done.append((fn, captures))
+            return fn
+
+        try:
+            rval = rval.wrap_functions(_tool)
+            verify(rval)
+        except Exception:
+            # The selector is refused: leave the functions as they were
+            for fn, captures in reversed(done):
+                _untooler(fn, captures)
+            raise
     return rval
 
 
